@@ -1,10 +1,10 @@
 package store
 
-// Finding (property C31), open. Run with:
+// Finding (property C31), fixed by 39a19d3 (the tests pass on the repaired tree and fail before it). Run with:
 //   /verif/findings/run.sh C31_stale_tail_kept_test.go store 'TestFindingC31.*'
 // downloadImpl compares the digest of the bytes it STREAMED (seed re-read from the partial file plus the
 // last response body), not of the file it leaves behind. When a response without status 206 makes it
-// start over (`w.Seek(0, io.SeekStart); h = New(); resume = 0`) the file is not truncated: if an earlier
+// start over (`w.Seek(0, io.SeekStart); h = New(); resume = 0`) the file was not truncated: if an earlier
 // attempt of the same call (or an over-long partial file, for content without declared size) left more
 // bytes than the new body has, they stay behind the new body. The streamed digest matches, Download
 // renames the file onto the target, syncs it and puts it into the download cache: a file whose SHA3-384
